@@ -63,6 +63,7 @@ type Case struct {
 	Lines [][]exact.Pt // line strings in 1/1000 units
 	Rot   bool         // both operands rotated by 30 degrees and scaled by 1.7 (a similarity: lengths scale by 1.7)
 	Pow   int          `json:",omitempty"` // both operands scaled exactly by 2^Pow (lengths scale by 2^Pow)
+	Slack float64      `json:",omitempty"` // absolute tolerance for lines whose coordinates are so large that one ulp of them exceeds the usual 1e-9
 }
 
 func region(s shp) exact.Region {
@@ -426,15 +427,15 @@ func runCase(c Case) (string, string) {
 	if (want < 1e-12*unit) != empty {
 		return "emptiness-wrong", fmt.Sprintf("result %v, reference inside length %g", out, want)
 	}
-	if math.Abs(got-want) > 1e-9*math.Max(unit, want) {
+	if math.Abs(got-want) > math.Max(c.Slack, 1e-9*math.Max(unit, want)) {
 		return "length-differs", fmt.Sprintf("result %v length %.12g, reference %.12g", out, got, want)
 	}
 	for _, l := range out {
 		for _, v := range l {
-			if distToLine(v, c.Lines, pt) > 1e-9*math.Max(unit, simScale*unit) {
+			if distToLine(v, c.Lines, pt) > math.Max(c.Slack, 1e-9*math.Max(unit, simScale*unit)) {
 				return "vertex-off-line", fmt.Sprintf("%v in %v", v, out)
 			}
-			if !exact.InsideF(fr, exact.FPt{X: v.X, Y: v.Y}) && distToBoundary(v, fr) > 1e-9*math.Max(unit, simScale*unit) {
+			if !exact.InsideF(fr, exact.FPt{X: v.X, Y: v.Y}) && distToBoundary(v, fr) > math.Max(c.Slack, 1e-9*math.Max(unit, simScale*unit)) {
 				return "vertex-outside-polygon", fmt.Sprintf("%v in %v", v, out)
 			}
 		}
@@ -483,7 +484,7 @@ func main() {
 		return
 	}
 	rep = report.New("C14", tier, "model_checking")
-	rep.Rule = "E1: 16 polygonal shapes (a corridor of aspect ratio 3e9, boxes, triangles, L, C, pentagon, holes in both windings and closed spelling, multi-polygons, island in hole) as Polygon / MultiPolygon / *Bounds x every simple open polyline of 2 and 3 vertices over the lattice (i+.37, j+.41), i,j in {-1,1,3,5,7} (thorough: -1..7), plus two-member multi-line strings; x-monotone zigzag lines of 63..200 vertices; every simple polyline of 4 and 5 vertices over the coarse lattice {-1,3,7}^2 (detours outside the bounding box; 5 vertices against 6 shapes, thorough all); the same pairs again with both operands rotated by 30 degrees and scaled by 1.7 (irrational coordinates, lengths scale by 1.7); a quarter of the pairs again scaled exactly by 2^-20 and 2^40 (every tolerance relative to the scale); pairs not in general position (exact test) or with a piece shorter than 1e-7 are skipped and counted. Oracle: reference inside length from exact crossing tests + even-odd classification of every piece; Length(result) equal (rel 1e-9); every result vertex within 1e-9 of the line and inside or on the polygon; empty iff the reference length is 0; the polygon argument is not modified; the same clip twice more with both operands cut from flat vertex buffers (same result, buffers not written, first result intact); clip sequences on one shared polygon value, also after the value has been moved in place (history). Non-trivial = lines partly inside."
+	rep.Rule = "E1: 16 polygonal shapes (a corridor of aspect ratio 3e9, boxes, triangles, L, C, pentagon, holes in both windings and closed spelling, multi-polygons, island in hole) as Polygon / MultiPolygon / *Bounds x every simple open polyline of 2 and 3 vertices over the lattice (i+.37, j+.41), i,j in {-1,1,3,5,7} (thorough: -1..7), plus two-member multi-line strings; x-monotone zigzag lines of 63..200 vertices; lines 4e10 long through the small shapes and multi-line strings with a member 7e9 long far away (absolute tolerance 1e-3 there); every simple polyline of 4 and 5 vertices over the coarse lattice {-1,3,7}^2 (detours outside the bounding box; 5 vertices against 6 shapes, thorough all); the same pairs again with both operands rotated by 30 degrees and scaled by 1.7 (irrational coordinates, lengths scale by 1.7); a quarter of the pairs again scaled exactly by 2^-20 and 2^40 (every tolerance relative to the scale); pairs not in general position (exact test) or with a piece shorter than 1e-7 are skipped and counted. Oracle: reference inside length from exact crossing tests + even-odd classification of every piece; Length(result) equal (rel 1e-9); every result vertex within 1e-9 of the line and inside or on the polygon; empty iff the reference length is 0; the polygon argument is not modified; the same clip twice more with both operands cut from flat vertex buffers (same result, buffers not written, first result intact); clip sequences on one shared polygon value, also after the value has been moved in place (history). Non-trivial = lines partly inside."
 	var lattice []exact.Pt
 	step := int64(2)
 	if tier == "thorough" {
@@ -634,6 +635,31 @@ func main() {
 					c := Case{Shape: si, Cast: ct, Lines: [][]exact.Pt{l}, Rot: rt}
 					if sym, det := runCase(c); sym != "" {
 						rep.Violation(fmt.Sprintf("LineString.Clip|%s|corridor|%s", ct, sym), map[string]interface{}{"case": c, "observed": det})
+					}
+				}
+			}
+		}
+	}
+	// very long lines through the small shapes: 4e10 units from end to end (the
+	// piece inside is 1e-10 of the line; one ulp of the end coordinates is 4e-6,
+	// hence the absolute tolerance of 1e-3), alone and as the far member of a
+	// multi-line string whose other member lies inside the shape
+	{
+		far := [][]exact.Pt{
+			{{X: -20000000000370, Y: 2410}, {X: 20000000000370, Y: 4410}},
+			{{X: -20000000000370, Y: 1410}, {X: 3370, Y: 1410}, {X: 20000000000370, Y: 5410}},
+		}
+		farAway := []exact.Pt{{X: 30000000000370, Y: 100000410}, {X: 37000000000370, Y: 100002410}}
+		short := []exact.Pt{{X: 370, Y: 410}, {X: 1370, Y: 1410}}
+		for si, sh := range cat {
+			if sh.Name == "corridor" {
+				continue
+			}
+			for _, ct := range casts(sh) {
+				for _, ls := range [][][]exact.Pt{{far[0]}, {far[1]}, {farAway, short}, {short, farAway}} {
+					c := Case{Shape: si, Cast: ct, Lines: ls, Slack: 1e-3}
+					if sym, det := runCase(c); sym != "" {
+						rep.Violation(fmt.Sprintf("%s.Clip|%s|%s|very-long-line|%s", map[bool]string{true: "LineString", false: "MultiLineString"}[len(ls) == 1], ct, sh.Name, sym), map[string]interface{}{"case": c, "observed": det})
 					}
 				}
 			}
